@@ -101,6 +101,17 @@ CHECKS = {
             "two-scale relation and keeps the function; refining an FFD's grid keeps the spline at coincident samples. Does not decide: sizes/"
             "strides beyond those enumerated, float accuracy.",
             "DESIGN.md 4/C14"),
+    "C15": (True, "E1+E5(T15)",
+            "may-alias / in-place effect analysis (flow-sensitive, summaries over resolved callees) for the functional APIs and value-class "
+            "accessors; copy-isolation by abstract execution of deep copies and accessor copies (state snapshot before/after)",
+            "Decides: for all functions exported by core.functional (>100) and losses.functional (34), with in-place flags at their defaults, no "
+            "in-place tensor operation can reach a value that may alias a tensor parameter on any path / through any resolved callee (views, "
+            "no-op conversions and helper summaries tracked; 7 frozen, structurally re-validated exceptions); Grid/Cube/Image(Batch)/FlowField(s) "
+            "public accessors have no effect on the receiver and underscore setters only rebind; deep copies share no storage/grids and are "
+            "independent in both directions; accessor copies of data tensors and of transforms (data/grid/condition/inverse/link/unlink, "
+            "Parameter/buffer/callable parameters) leave the original's state snapshot unchanged — with 4 KNOWN findings rooted in the shared "
+            "_parameters dict of SpatialTransform.__copy__. Does not decide: aliasing created inside torch, requires_grad side effects, user callables.",
+            "DESIGN.md 4/C15"),
 }
 
 NOT_BUILT_REASON = "static check for this property is designed (DESIGN.md section 4) but not yet built in this revision"
